@@ -213,6 +213,12 @@ def impl_evaluate(policy, env):
 
 
 def check_cases(chk, cases, replay=False):
+    etm = [c for c in cases if c.get("kind") == "engine-time-mode"]
+    if etm:
+        engine_time_mode(chk, etm)
+        cases = [c for c in cases if c.get("kind") != "engine-time-mode"]
+        if not cases:
+            return
     lines = []
     for c in cases:
         if "policy" in c:
@@ -288,4 +294,30 @@ def run(chk):
     cases = corpus_cases()
     cases += binop_cases(chk) + time_cases(chk) + logic_cases(chk) + resolve_cases(chk) + rule_cases(chk)
     check_cases(chk, cases)
+    engine_time_mode(chk)
     chk.exhaustive = chk.tier == "thorough"
+
+
+def engine_time_mode(chk, given=None):
+    """the time operators through the engine (compiled path and sets), where the request values are what the caller
+    handed to Subject/Resource/Context: a naive datetime / ISO text / epoch is a type mismatch in strict mode whatever
+    the engine does to the request on the way in (same cases as the engine-level checks, judged here on the operator
+    clause)."""
+    import enggen
+
+    cases = [dict(c, warm=False) for c in (given if given is not None else enggen.time_mode_cases())]
+    impls = enggen.run_impl(cases)
+    models = enggen.run_model(cases, impls, "engine.eval")
+    for c, i, m in zip(cases, impls, models):
+        d = i["decisions"][0]
+        chk.count("fam:engine-time-mode")
+        if m == ["Ood"] or not isinstance(m, dict):
+            chk.count("ood")
+            continue
+        chk.mark(("engine-time", repr(c["policy"]), repr(c["req"]), c["strict"]), True)
+        if not isinstance(d, dict) or (d["effect"], d["reason"]) != (m["effect"], m["reason"]):
+            chk.violation("time operator through the engine (strict=%s): decision %s but the documented meaning of the "
+                          "condition gives %s/%s (strict mode accepts timezone-aware datetimes only; a type mismatch makes "
+                          "the rule not apply)" % (c["strict"], d if not isinstance(d, dict) else (d["effect"], d["reason"]),
+                                                    m["effect"], m["reason"]),
+                          {"kind": "engine-time-mode", **{k: c[k] for k in ("policy", "req", "strict")}}, impl=d, model=m)
